@@ -181,6 +181,13 @@ func c17() {
 	for i := 0; i < run.N(6, 200); i++ {
 		hists = append(hists, hist{kind: "two-interruptions", k: r0.Intn(total + 1), k2: r0.Intn(total + 1)})
 	}
+	// a second run that overlaps a first one which is still writing: it must not reuse what is there so far
+	for _, k := range []int{0, 100, 4096, 8192, 20000, total / 2, total - 100} {
+		hists = append(hists, hist{kind: "overlapping-run", k: k})
+	}
+	for i := 0; i < run.N(4, 100); i++ {
+		hists = append(hists, hist{kind: "overlapping-run", k: r0.Intn(total + 1)})
+	}
 
 	var mu sync.Mutex
 	outcomes := map[string]int64{}
@@ -225,6 +232,24 @@ func c17() {
 			}
 			mu.Unlock()
 			run.Count("real_kills", 1)
+		case "overlapping-run":
+			var overlap *vlib.ToolResult
+			res := step(vlib.ToolRun{Argv: argv(target), FakeMode: "block", Listing: fx.listA, K: h.k, KillAfter: true, WhileBlocked: func() {
+				// second profiler run on the same binary while the first one's disassembler is blocked after k bytes;
+				// it gets a working disassembler (own environment)
+				overlap, _ = th.Run(vlib.ToolRun{Argv: argv(target), FakeMode: "emit", Listing: fx.listA})
+			}}, fmt.Sprintf("run 1: disassembler emits %d bytes and blocks; a second run overlaps it; run 1 is then SIGKILLed", h.k))
+			if res == nil || !res.Killed || overlap == nil {
+				run.Inconclusive("overlap history: the tool never signalled")
+				return
+			}
+			run.Count("real_kills", 1)
+			run.Count("overlapping_runs", 1)
+			if overlap.ExitCode == 0 && !overlap.Signaled && overlap.Stdout != coldA {
+				run.Violation("fewer-syscalls:overlapping-run", fmt.Sprintf("a run that overlaps another run which has written %d bytes of the dump so far exits 0 with a profile of %d syscalls; a cold cache gives %d", h.k, len(profileNames(overlap.Stdout)), len(profileNames(coldA))),
+					map[string]any{"check": "C17", "history": h.kind, "k": h.k, "steps": steps})
+				return
+			}
 		case "two-interruptions":
 			for _, k := range []int{h.k, h.k2} {
 				res := step(vlib.ToolRun{Argv: argv(target), FakeMode: "block", Listing: fx.listA, K: k, KillAfter: true}, fmt.Sprintf("interrupted run: %d bytes then SIGKILL", k))
@@ -334,5 +359,5 @@ func c17() {
 		}
 	}
 	run.Finish(run.Counter("histories"), int64(len(distinct)),
-		"two- and three-run histories of the built seccomp-profiler in private mount namespaces (own ~/.seccomp-profiler): run 1 interrupted by SIGKILL after the scripted disassembler emitted k bytes (k swept over 0,1,63..65, every 4096-byte flush boundary +-1, end, PRNG), disassembler absent / exiting 1 or killed after k bytes / after everything, ENOSPC on every write from the K-th on, EIO while hashing, binary replaced; then a normal run whose profile must equal the cold-cache profile or fail; distinct = (kind, k/512) cells")
+		"two- and three-run histories of the built seccomp-profiler in private mount namespaces (own ~/.seccomp-profiler): run 1 interrupted by SIGKILL after the scripted disassembler emitted k bytes (k swept over 0,1,63..65, every 4096-byte flush boundary +-1, end, PRNG), disassembler absent / exiting 1 or killed after k bytes / after everything, ENOSPC on every write from the K-th on, EIO while hashing, binary replaced, a second run overlapping a first one that is still writing; then a normal run whose profile must equal the cold-cache profile or fail; distinct = (kind, k/512) cells")
 }
